@@ -571,7 +571,7 @@ def latest_tag_eval(ctx) -> T.Optional[T.List[str]]:
     from sa.model import Abstract, CannotFold, EvalError
     prog = ctx.prog
     gl = prog.function("cli.get_latest_vcs_version_tag")
-    rank = {"v-low": 1, "v-mid": 2, "v-top": 3}
+    rank: T.Dict[str, int] = {}
 
     class VersionMod(Abstract):
         def parse_version(self, tag: str) -> int:
@@ -581,8 +581,11 @@ def latest_tag_eval(ctx) -> T.Optional[T.List[str]]:
         tag_scope, version_pattern, is_new_pattern = "SCOPE", "PAT", True
     wrong: T.List[str] = []
     try:
-        listings = [list(p_) for p_ in itertools.permutations(["v-low", "v-top", "junk", "v-mid"])] + [[], ["junk"], ["v-mid"]]
-        for tags in listings:
+        listings = [list(p_) for p_ in itertools.permutations(["ta", "tc", "junk", "tb"])] + [[], ["junk"], ["tb"]]
+        # every assignment of the three ranks to the three names: no order of the tag *texts* agrees with all of them
+        for ranks, tags in itertools.product(itertools.permutations((1, 2, 3)), listings):
+            rank.clear()
+            rank.update(zip(("ta", "tb", "tc"), ranks))
             stubs = {"vcs.get_tags": lambda f, node, tags=tags: list(tags),
                      "_parse_version_tags": lambda f, node: [t_ for t_ in f(node.args[0] if node.args else node.keywords[0].value) if t_ in rank]}
             env = {gl.params[0]: Cfg(), gl.params[1]: True, "version": VersionMod(), "__strict__": True, "__stubs__": stubs}
@@ -593,7 +596,7 @@ def latest_tag_eval(ctx) -> T.Optional[T.List[str]]:
             good = [t_ for t_ in tags if t_ in rank]
             want = max(good, key=rank.get) if good else None
             if got != want and len(wrong) < 3:
-                wrong.append(f"tags {tags} -> {got!r}, expected {want!r}")
+                wrong.append(f"tags {tags} ordered {sorted(rank, key=rank.get)} -> {got!r}, expected {want!r}")
     except (CannotFold, TypeError, AttributeError, KeyError, ValueError, IndexError) as ex:
         ctx.observe(f"cli.get_latest_vcs_version_tag not evaluated ({type(ex).__name__}: {str(ex)[:80]})")
         return None
